@@ -1,5 +1,5 @@
 //verif:package github.com/kstenerud/go-concise-encoding/cte
-//verif:config cap=300
+//verif:config cap=300 maxsec=1800
 //verif:bounds all 7 format settings x the 8 integer array kinds; element value: all values for 8/16-bit kinds; 32-bit kinds for the binary, octal and hexadecimal settings in the quick tier; 64-bit kinds at the range edges (top byte symbolic, low bytes all-zero or all-one) for those settings in the quick tier; thorough adds 64-bit kinds with every bit symbolic for those settings and 32-bit decimal (symbolic division by powers of ten); one or two elements per array
 //verif:assume the association array header -> parse base (@u8b[ -> 2, @u8o[ -> 8, @u8x[ -> 16, @u8[ -> 0) is made by the grammar and listener dispatch (ANTLR, not executed): the harness applies the same mapping; float kinds (strconv float text) are outside reach
 package cte
